@@ -135,17 +135,17 @@ theorem reg_head_min {c : Sys} (i : Inv c) {hd : TxRec} (hh : c.reg.head? = some
       rw [hreg] at this
       exact Nat.le_of_lt (List.rel_of_pairwise_cons this hr)
 
-theorem open_empty_iff {c : Sys} {s : State} (h : R c s) : s.open_.isEmpty = c.reg.head?.isNone := by
+theorem open_empty_iff {c : Sys} {s : State} {cl : List Nat} (h : Rx cl c s) : s.open_.isEmpty = c.reg.head?.isNone := by
   have := h.reg
   cases ho : s.open_ <;> cases hr : c.reg <;> simp_all
 
-theorem gcMid_R {c : Sys} {s : State} (h : R c s) : R (gcMid c) (Spec.step s .gc).1 := by
+theorem gcMid_R {c : Sys} {s : State} {cl : List Nat} (h : Rx cl c s) : Rx cl (gcMid c) (Spec.step s .gc).1 := by
   have i := h.inv
   have i' := gcMid_inv i
   have hspec : (Spec.step s .gc).1 = if s.open_.isEmpty then { s with clock := s.clock + 1 } else s := rfl
   rw [hspec]
   have hrest : ∀ (s' : State), s'.dom = s.dom → s'.open_ = s.open_ → s'.hist = s.hist →
-      s'.clock = (gcMid c).counter → R (gcMid c) s' := by
+      s'.clock = (gcMid c).counter → Rx cl (gcMid c) s' := by
     intro s' hd ho hh hc
     refine ⟨i', hc, by rw [hd]; exact h.dom, by rw [ho]; exact h.reg, ?_, ?_, ?_⟩
     · intro x hx k
@@ -171,7 +171,7 @@ theorem gcMid_R {c : Sys} {s : State} (h : R c s) : R (gcMid c) (Spec.step s .gc
           rw [List.pairwise_append] at hs
           exact hs.2.2 u hu v hv'
       · intro hp
-        show ∃ hd, (collect (c.main k) (gcHz c)).2.head? = some hd ∧ ∀ r ∈ c.reg, hd.seq < r.seq
+        show ∃ hd, (collect (c.main k) (gcHz c)).2.head? = some hd ∧ ∀ r ∈ c.reg, r.id ∉ cl → hd.seq < r.seq
         by_cases hc1 : (collect (c.main k) (gcHz c)).1 = []
         · have hpre : pre ≠ [] := by simpa [hc1] using hp
           have h2eq : (collect (c.main k) (gcHz c)).2 = c.main k := by
@@ -179,7 +179,7 @@ theorem gcMid_R {c : Sys} {s : State} (h : R c s) : R (gcMid c) (Spec.step s .gc
           rw [h2eq]; exact h3 hpre
         · obtain ⟨hd, hh', hle⟩ := collect_head_le (c.main k) (gcHz c) hc1
           refine ⟨hd, hh', ?_⟩
-          intro r hr
+          intro r hr _
           have hdmem : hd ∈ c.main k := by
             apply (collect_snd_sublist (c.main k) (gcHz c)).subset
             cases hc2 : (collect (c.main k) (gcHz c)).2 with
@@ -216,8 +216,8 @@ theorem gcMid_R {c : Sys} {s : State} (h : R c s) : R (gcMid c) (Spec.step s .gc
     show s.clock = (match c.reg.head? with | some _ => c.counter | none => c.counter + 1)
     rw [hhead, h.clock]
 
-theorem step_gc {c : Sys} {s : State} (h : R c s) :
-    (c.gc).2 = (Spec.step s .gc).2 ∧ R (c.gc).1 (Spec.step s .gc).1 := by
+theorem step_gc {c : Sys} {s : State} {cl : List Nat} (h : Rx cl c s) :
+    (c.gc).2 = (Spec.step s .gc).2 ∧ Rx cl (c.gc).1 (Spec.step s .gc).1 := by
   refine ⟨rfl, ?_⟩
   rw [gc_eq]
   apply deleteFiles_R (gcMid_R h)
